@@ -4,9 +4,12 @@ from props import c07 as PRED
 
 ID = 'C06'
 PROFILES = ['debug', 'release']
-MODEL_PER_PROFILE = True
+# the model does not depend on the build profile any more (C06_a85_profile_independent: proved for every input);
+# the debug and the release build of the implementation are both compared with the one model run
+MODEL_PER_PROFILE = False
 CASE_TIMEOUT = 1500
-THEOREMS = ['C06_ahex', 'C06_a85', 'C06_flate', 'C06_chain', 'C06_shape_errors', 'C06_corrupt']
+THEOREMS = ['C06_ahex', 'C06_a85', 'C06_flate', 'C06_chain', 'C06_chain_shapes', 'C06_shape_errors', 'C06_corrupt', 'C06_inflate0', 'C06_chain_stored', 'C06_a85_profile_independent', 'C06_decode_stream_no_panic',
+            'C06_decode_stream_fuel_only_unmodelled']
 RULE = ('payloads 0 B .. 64 KiB (quick) / 1 MiB (thorough): empty, all-zero (forces z), text, random, around 32 KiB and the '
         'ASCII group sizes; encoded by independent python encoders drawing every legal choice (whitespace anywhere, hex case, odd '
         'final digit, z groups or not, final partial group, EOD, trailing EOL bytes; zlib levels 0/1/6/9 and hand-built stored '
@@ -59,12 +62,15 @@ def eol_tail(rng):
 
 def ahex_encode(rng, p, ws=0.0):
     style = rng.randrange(3)
-    digs = bytearray()
-    for b in p:
-        s = '%02x' % b
-        if style == 1 or (style == 2 and rng.random() < 0.5):
-            s = s.upper()
-        digs += s.encode()
+    if len(p) > 2000 and style == 2:
+        style = 0
+    if style == 2:                            # mixed case, digit pair by digit pair
+        digs = bytearray()
+        for b in p:
+            s = '%02x' % b
+            digs += (s.upper() if rng.random() < 0.5 else s).encode()
+    else:
+        digs = bytearray((p.hex().upper() if style == 1 else p.hex()).encode())
     if p and p[-1] & 15 == 0 and rng.random() < 0.7:
         digs = digs[:-1]                    # odd number of digits: the last one is followed by an implied 0
     body = sprinkle(rng, bytes(digs), ws)
@@ -127,58 +133,56 @@ class Corrupt(Exception):
     pass
 
 
+_WS_TABLE = bytes(WS)
+_HEXSET = set(b'0123456789abcdefABCDEF')
+
+
 def ref_ahex(data):
-    digs = bytearray()
-    for b in data:
-        if b in WS:
-            continue
-        if b == 0x3E:
-            break
-        if chr(b) in '0123456789abcdefABCDEF':
-            digs.append(b)
-        else:
+    k = data.find(b'>')
+    if k < 0:
+        body = data.translate(None, _WS_TABLE)
+        if any(b not in _HEXSET for b in body):
             raise Corrupt('illegal hex char')
-    else:
         raise Corrupt('no EOD')
+    digs = data[:k].translate(None, _WS_TABLE)
+    if not _HEXSET.issuperset(digs):
+        raise Corrupt('illegal hex char')
     if len(digs) % 2:
-        digs.append(0x30)
+        digs += b'0'
     return bytes.fromhex(digs.decode())
 
 
 def ref_a85(data):
-    s = bytes(b for b in data if b not in WS)
+    s = data.translate(None, _WS_TABLE)
+    if s.startswith(b'<~'):
+        s = s[2:]               # the Adobe-style start marker is tolerated (as the ascii85 crate always did)
     k = s.find(b'~')
     if k < 0 or s[k:] != b'~>':
         raise Corrupt('no EOD / bytes after EOD')
+    body = s[:k]
     out = bytearray()
-    grp = []
-    for c in s[:k]:
+    i, n = 0, len(body)
+    while i < n:
+        c = body[i]
         if c == 0x7A:
-            if grp:
-                raise Corrupt('misaligned z')
             out += bytes(4)
-        elif 33 <= c <= 117:
-            grp.append(c - 33)
-            if len(grp) == 5:
-                v = 0
-                for d in grp:
-                    v = v * 85 + d
-                if v >= 2 ** 32:
-                    raise Corrupt('group too large')
-                out += v.to_bytes(4, 'big')
-                grp = []
-        else:
-            raise Corrupt('illegal char')
-    if grp:
-        n = len(grp)
-        if n == 1:
+            i += 1
+            continue
+        grp = body[i:i + 5]
+        if not all(33 <= x <= 117 for x in grp):
+            raise Corrupt('illegal char or misaligned z')
+        m = len(grp)
+        if m == 1:
             raise Corrupt('lone final digit')
         v = 0
-        for d in grp + [84] * (5 - n):
-            v = v * 85 + d
+        for x in grp:
+            v = v * 85 + (x - 33)
+        for _ in range(5 - m):
+            v = v * 85 + 84
         if v >= 2 ** 32:
             raise Corrupt('group too large')
-        out += v.to_bytes(4, 'big')[:n - 1]
+        out += v.to_bytes(4, 'big')[:4 if m == 5 else m - 1]
+        i += m
     return bytes(out)
 
 
@@ -359,13 +363,13 @@ def payloads(tier, rng):
     for n in (4000, 32767, 32768, 32769, 33000, 40000, 65536):
         out.append((text * (n // len(text) + 1))[:n])
         out.append(bytes(n))
-    out.append(bytes(rng.randrange(256) for _ in range(40000)))
-    out.append(bytes(rng.randrange(256) for _ in range(65536)))
+    out.append(rng.getrandbits(8 * 40000).to_bytes(40000, 'big'))
+    out.append(rng.getrandbits(8 * 65536).to_bytes(65536, 'big'))
     if tier == 'thorough':
         for n in (100000, 300000, 1 << 20):
             out.append((text * (n // len(text) + 1))[:n])
             out.append(bytes(n))
-            out.append(bytes(rng.getrandbits(8) for _ in range(n)))
+            out.append(rng.getrandbits(8 * n).to_bytes(n, 'big'))
     return out
 
 
@@ -425,13 +429,16 @@ def valid_cases(tier, rng):
         if big:
             cs = [[FL], [AH], [A85], [FL, FL], [A85, FL], [AH, FL], [FL, A85], [AH, A85, FL]]
             if len(p) > 70000:
-                cs = [[FL], [A85], [AH], [A85, FL]]
+                # the ASCII encodings of 100 KB .. 1 MiB are run on their own up to 300 KB, and around the
+                # (much smaller) compressed form of compressible payloads at any size
+                compressible = len(zlib.compress(p, 1)) < len(p) // 4
+                cs = [[FL]] + ([[A85, FL], [AH, FL]] if compressible else []) + ([[A85], [AH]] if len(p) <= 300000 else [])
         else:
             cs = chains if (tier == 'thorough' or len(p) < 10) else [c for c in chains if rng.random() < 0.45]
         for chain in cs:
             reps = 1 if big else 2
             for _ in range(reps):
-                ws = rng.choice([0.0, 0.0, 0.05, 0.4]) if not big else rng.choice([0.0, 0.02])
+                ws = rng.choice([0.0, 0.0, 0.05, 0.4]) if not big else 0.0
                 shape = rng.choice(['none', 'dict', 'array'])
                 d, content = build_stream(rng, chain, p, ws, shape)
                 out.append(stream_case(d, content, flate_inputs(d, content)))
@@ -450,6 +457,9 @@ def valid_cases(tier, rng):
             p = tail + bytes([b])
             out.append(' '.join(['t', AH, 'n', hx(ahex_encode(rng, p))]))
             out.append(' '.join(['t', A85, 'n', hx(a85_encode(rng, p))]))
+    for p in (b'', b'abcd', b'\x00\x00\x00\x00xy', b'<~>'):
+        out.append(' '.join(['t', A85, 'n', hx(b'<~' + a85_encode(rng, p))]))
+        out.append(' '.join(['t', A85, 'n', hx(b' <~<~' + a85_encode(rng, p))]))      # repeated marker: not tolerated
     for v in (0, 1, 84, 85, 2 ** 32 - 1, 2 ** 32 - 2, 2 ** 31, 0x01000000, 0x00ffffff, 85 ** 4, 85 ** 4 - 1, 85 ** 3, 614124):
         for n in (1, 2, 3, 4):
             p = v.to_bytes(4, 'big')[:n]
@@ -560,7 +570,9 @@ def shape_cases(tier, rng):
 
 
 def cases(tier, rng):
-    return shape_cases(tier, rng) + corrupt_cases(tier, rng) + valid_cases(tier, rng)
+    out = shape_cases(tier, rng) + corrupt_cases(tier, rng) + valid_cases(tier, rng)
+    rng.shuffle(out)        # spreads the large payloads over the parallel runner shards
+    return out
 
 
 # ------------------------------------------------------------------ oracle
@@ -618,9 +630,25 @@ def show_content(b):
     return hx(b) if len(b) <= 64 else '#%d.%d' % (len(b), adler(b))
 
 
+_WANT = {}
+
+
 def oracle(case, obs, prof):
     if obs == 'panic' or obs.startswith('crash') or obs in ('timeout', 'missing'):
         return 'the decoder panicked / crashed (%s)' % obs
+    want = _WANT.get(case)
+    if want is None:
+        want = _WANT[case] = _expected_obs(case)
+    if want == 'err':
+        if not obs.startswith('err '):
+            return 'a corrupt encoding / mismatched filter shape must produce an error, implementation gave "%s"' % obs[:100]
+        return None
+    if obs != want:
+        return 'decoding a conformant encoding must give "%s", implementation gave "%s"' % (want[:120], obs[:120])
+    return None
+
+
+def _expected_obs(case):
     t = case.split(' ')
     if t[0] == 't':
         data = b'' if t[3] == '-' else bytes.fromhex(t[3])
@@ -639,13 +667,7 @@ def oracle(case, obs, prof):
             want = 'ok %s %s' % (dict_tok(nd), show_content(payload))
         except Corrupt:
             want = 'err'
-    if want == 'err':
-        if not obs.startswith('err '):
-            return 'a corrupt encoding / mismatched filter shape must produce an error, implementation gave "%s"' % obs[:100]
-        return None
-    if obs != want:
-        return 'decoding a conformant encoding must give "%s", implementation gave "%s"' % (want[:120], obs[:120])
-    return None
+    return want
 
 
 def nontrivial(case, obs):
